@@ -27,6 +27,26 @@ def same_named_controllers(rng):
         "types": ["Item"]}]
 
 
+def slash_joints(rng):
+    """Every way a controller prefix and a method route can meet: prefix with / without a trailing slash x method route
+    with / without a leading slash (a relative method route continues the prefix's last segment when the prefix does
+    not end in a slash), with literals and with a path parameter at the joint."""
+    pid = {"name": "id", "ctx": False, "loc": "path", "alias": None, "type": "string", "pointer": False, "validator": None,
+           "slice": False}
+    ctrls = []
+    for i, prefix in enumerate(["/users/", "/orders", "/api/v1/", ""]):
+        ms = [meth("L%dList" % i, "GET", "list"), meth("L%dAll" % i, "GET", "/all"), meth("L%dRoot" % i, "POST", "/")]
+        byid = meth("L%dById" % i, "GET", "{id}" if prefix.endswith("/") else "/{id}")
+        byid["params"] = [dict(pid)]
+        ms.append(byid)
+        if prefix == "":
+            ms = [m for m in ms if m["route"].startswith("/")]
+        ctrls.append({"name": "JCtl%d" % i, "pkg": "ctl", "tag": "J%d" % i, "route": prefix, "security": [], "descr": "",
+                      "methods": ms})
+    return [{"config": {"schemes": ["sec1"], "default_security": None, "enforce": False, "engine": "gin", "title": "API",
+                        "version": "1", "base_url": "https://a.example.com"}, "controllers": ctrls, "types": ["Item"]}]
+
+
 def known_f13(project, obs):
     import common
     names = [c["name"] for c in project["controllers"]]
@@ -44,12 +64,13 @@ def known_f13(project, obs):
 
 if __name__ == "__main__":
     res = speccheck.run(
-        "C01", SPEC, {"security": True, "params": True, "multipkg": True, "nested_pkg": True}, 24, 200,
+        "C01", SPEC, {"security": True, "params": True, "multipkg": True, "nested_pkg": True, "broken_pkg": True}, 24, 200,
         rule="seeded abstract projects (1-4 controllers in 1-2 packages, 0-4 methods each, five verbs, route "
              "templates with/without leading, trailing and doubled slashes and {params}, hidden/deprecated "
              "mixes), rendered to Go sources and run through the real CLI for OpenAPI 3.0.0 and 3.1.0; "
              "non-trivial = at least one operation emitted; distinct = distinct abstract projects",
         assumptions=["go/packages discovery and kin-openapi/libopenapi rendering are exercised, not modelled",
                      "controller struct names are unique within a generated project (see F13)"],
-        nontrivial=lambda p, ops: bool(ops), extra_cases=same_named_controllers, known_matcher=known_f13)
+        nontrivial=lambda p, ops: bool(ops), extra_cases=lambda rng: same_named_controllers(rng) + slash_joints(rng),
+        known_matcher=known_f13)
     sys.exit(res.finish())
